@@ -17,6 +17,7 @@ import (
 	"strconv"
 	"strings"
 	"sync"
+	"sync/atomic"
 	"syscall"
 	"time"
 	"unicode"
@@ -164,6 +165,8 @@ var (
 
 const c09ProcTimeout = 20 * time.Second
 
+var c09Hangs atomic.Int32 // child processes that had to be killed in this run
+
 // c09ChildCPU: user+system CPU time consumed so far by process pid (Linux /proc; 0 if unknown).
 func c09ChildCPU(pid int) time.Duration {
 	b, err := os.ReadFile(fmt.Sprintf("/proc/%d/stat", pid))
@@ -222,6 +225,13 @@ func c09Exec(c *Ctx, e *c09Env, id int, cs *c09Case) *c09ProcResult {
 		args = append(args, pf)
 	}
 	res := &c09ProcResult{cs: cs}
+	if c09Hangs.Load() >= 3 && id < 1000000 {
+		// three cases of this run already hung (each costs a watchdog period): the rest of the random
+		// campaign is not run; grid, preflight, shrink and replay cases still are
+		res.exit = -100
+		res.stderr = "skipped: three hangs already found in this run"
+		return res
+	}
 	var stdin bytes.Buffer
 	if cs.Kind == "script" {
 		for i, l := range unhexAll(cs.Lines) {
@@ -259,15 +269,26 @@ func c09Exec(c *Ctx, e *c09Env, id int, cs *c09Case) *c09ProcResult {
 	select {
 	case <-done:
 	case <-time.After(c09ProcTimeout):
-		// a starved process on an overloaded machine is not a hang: unless the child has already burnt
-		// several CPU seconds, give it more wall time before deciding
-		if c09ChildCPU(cmd.Process.Pid) < 5*time.Second {
+		// Hang or starvation? A child that has burnt several CPU seconds is looping; one whose CPU
+		// time does not advance at all for 5 more seconds is blocked (deadlock); anything else is a
+		// slow/starved process on an overloaded machine and gets more wall time before deciding.
+		cpu1 := c09ChildCPU(cmd.Process.Pid)
+		if cpu1 < 5*time.Second {
 			select {
 			case <-done:
 				res.exit = cmd.ProcessState.ExitCode()
 				res.stderr = errb.String()
 				return res
-			case <-time.After(3 * c09ProcTimeout):
+			case <-time.After(5 * time.Second):
+			}
+			if cpu2 := c09ChildCPU(cmd.Process.Pid); cpu2-cpu1 >= 20*time.Millisecond && cpu2 < 5*time.Second {
+				select {
+				case <-done:
+					res.exit = cmd.ProcessState.ExitCode()
+					res.stderr = errb.String()
+					return res
+				case <-time.After(3 * c09ProcTimeout):
+				}
 			}
 		}
 		// ask the Go runtime for the goroutine stacks (to name the place that hangs), then kill
@@ -279,6 +300,7 @@ func c09Exec(c *Ctx, e *c09Env, id int, cs *c09Case) *c09ProcResult {
 			<-done
 		}
 		res.timedOut = true
+		c09Hangs.Add(1)
 	}
 	res.exit = cmd.ProcessState.ExitCode()
 	res.stderr = errb.String()
@@ -360,6 +382,20 @@ func c09Judge(c *Ctx, r *c09ProcResult) string {
 		c.Violation(sig, what, cs)
 	}
 	return cls
+}
+
+// c09HangReport: did the in-process call hang? The first hang of a run is reported with the place
+// where it is stuck; calls refused because of an earlier hang (c09Poisoned) are only counted.
+func c09HangReport(c *Ctx, run *c09Run, what string, cs *c09Case) bool {
+	if !run.Hang {
+		return false
+	}
+	if run.HangSite == "after-earlier-hang" {
+		c.Res.Hit("inproc/skipped-after-hang")
+		return true
+	}
+	c.Violation("C09/hang/"+run.HangSite, what, cs)
+	return true
 }
 
 // c09ShrinkList removes elements of l one at a time (then repeats) while still(l) keeps holding.
@@ -475,8 +511,7 @@ func c09Tagfilter(c *Ctx, value string) {
 	errs := run.UI.allErrs()
 	real := "noerr"
 	switch {
-	case run.Hang:
-		c.Violation("C09/hang/tagfilter", "driver.PProf hangs on "+cs.Text, cs)
+	case c09HangReport(c, run, "driver.PProf does not return on "+cs.Text, cs):
 		return
 	case run.Panic != "":
 		c.Violation("C09/panic/"+c09PanicSite(run.Panic), "driver.PProf panics on "+cs.Text+": "+c09FirstLine(run.Panic), cs)
@@ -712,8 +747,7 @@ func c09Session(c *Ctx, dflt string, lines []string) {
 	}
 	model := c.Drv.Ask(req.String())
 	c.Res.ModelCompared++
-	if run.Hang {
-		c.Violation("C09/hang/session", "interactive session hangs: "+cs.Text, cs)
+	if c09HangReport(c, run, "interactive session does not return: "+cs.Text, cs) {
 		return
 	}
 	if run.Panic != "" {
@@ -898,6 +932,9 @@ func c09Locate(c *Ctx, file, buildID string, npaths int) {
 	c.Res.ModelCompared++
 	c.Res.Count("locate "+cs.Text, buildID != "")
 	c.Res.Hit(fmt.Sprintf("locate/buildid-len=%d", min(len(buildID), 3)))
+	if c09HangReport(c, run, "driver.PProf does not return loading a profile with "+cs.Text, cs) {
+		return
+	}
 	if run.Panic != "" {
 		c.Violation("C09/panic/"+c09PanicSite(run.Panic), "driver.PProf panics loading a profile with "+cs.Text+": "+c09FirstLine(run.Panic), cs)
 		return
@@ -920,6 +957,9 @@ func c09SymMode(c *Ctx, mode string) {
 	p.Mapping[0].HasFunctions = false // so that local symbolization tries to open the binary
 	run := c09PProf(p, []string{"-top", "-output=c09out", "-symbolize=" + mode}, nil)
 	c.Res.ModelCompared++
+	if c09HangReport(c, run, "driver.PProf does not return on "+cs.Text, cs) {
+		return
+	}
 	if run.Panic != "" {
 		c.Violation("C09/panic/"+c09PanicSite(run.Panic), "driver.PProf panics on "+cs.Text+": "+c09FirstLine(run.Panic), cs)
 		return
@@ -967,6 +1007,9 @@ func c09SymModeGen(r *Rng) string {
 func c09Tables(c *Ctx) {
 	cs := &c09Case{Kind: "tables", Text: "help / o"}
 	run := c09PProf(c09SaneProfile(""), []string{"-symbolize=none"}, []string{"help", "o"})
+	if c09HangReport(c, run, "help / o session does not return", cs) {
+		return
+	}
 	if run.Panic != "" || run.Err != nil || len(run.UI.recs) < 3 {
 		c.Disagree("C09/corr/tables/run", fmt.Sprintf("help/o session failed: %v %s", run.Err, c09Trunc(run.Panic, 100)), "command/option tables of Model/Crash.lean", cs)
 		return
@@ -1051,8 +1094,7 @@ func c09Web(c *Ctx, cs *c09Case) {
 		c.Violation("C09/panic/"+c09PanicSite(run.Panic), "driver.PProf -http panics: "+c09FirstLine(run.Panic)+" on "+text, cs)
 		return
 	}
-	if run.Hang {
-		c.Violation("C09/hang/web-start", "driver.PProf -http hangs on "+text, cs)
+	if c09HangReport(c, run, "driver.PProf -http does not return on "+text, cs) {
 		return
 	}
 	if run.Err != nil || run.Handlers == nil {
